@@ -244,7 +244,14 @@ def corpus():
         struct.pack_into("<H", data7, pos + 2, fee | 0x7000)
         pos += struct.unpack_from("<H", data7, pos + 8)[0]
     st = ["check", "all", "its-stave"]
-    return [
+    # inputs longer than the reader's look-ahead (100 batches of 100 packets): 15 000 payload-less packets whose running checks fail
+    # from the second packet on -- a consumer that stops early (error cap) or that does not exist (no sub-command) must not leave the
+    # reader blocked on its full queue
+    from .. import rawdata as _rd
+    long_in = b"".join(_rd.mk_rdh(link=3, fee=0x100A, payload_len=0, pktcnt=i & 0xFF, orbit=7, pages=0, stop=0) for i in range(15000))
+    extra = [("long-input-error-cap", long_in, ["check", "all", "-e", "1"]), ("long-input-error-cap", long_in, ["check", "all", "its", "-e", "3"]),
+             ("long-input-no-subcommand", long_in, []), ("long-input-view", long_in, ["view", "rdh"])]
+    return extra + [
         ("F2-empty-input", b"", ["check", "sanity"]),
         ("F2-three-bytes", b"\x07\x40\x00", ["check", "all"]),
         ("F5-data-word-outside-frame", ib_link([good], cont_first=1), st),
@@ -377,7 +384,7 @@ def run(tier, seed):
             samples.append(dict(desc, exit=rc))
     chk.add_stream("robustness", len(jobs), distinct, samples, distribution={"inputs": nin, "runs": len(jobs)})
     # ---- model vs binary: does the run hit a panic site (check modes, unfiltered, no cap)
-    mj = [(j, r) for j, r in zip(jobs, res) if j["mode"][0] == "check" and not any(x in j["opts"] for x in ("-f", "-F", "-s", "-e", "-c", "-p")) and len(j["data"]) >= 64
+    mj = [(j, r) for j, r in zip(jobs, res) if j["mode"] and j["mode"][0] == "check" and not any(x in j["opts"] for x in ("-f", "-F", "-s", "-e", "-c", "-p")) and len(j["data"]) >= 64
           and len(j["data"]) < 200000][: (400 if deep else 60)]
     mlines = ["%s %s - %d 0 - %s - - - %s %s" % (j["mode"][1], {"its": "its", "its-stave": "stave"}.get(j["mode"][-1], "none") if len(j["mode"]) > 2 else "none", int("-m" in j["opts"]),
                                                   "99" if "-E" in j["opts"] else "-", j["src"], j["data"].hex().upper()) for j, _r in mj]
@@ -388,7 +395,7 @@ def run(tier, seed):
             chk.disagreements.append({"stream": "robustness", "args": " ".join(args[-5:]), "impl_panicked": ip, "model": lm[:120], "input_class": j["kind"],
                                       "input_hex": j["data"].hex().upper()[:6000]})
     # ---- the same for the views (unfiltered): the view model ends with `panic` exactly when the binary aborts
-    vj = [(j, r) for j, r in zip(jobs, res) if j["mode"][0] == "view" and not j["opts"] and 64 <= len(j["data"]) < 200000][: (400 if deep else 60)]
+    vj = [(j, r) for j, r in zip(jobs, res) if j["mode"] and j["mode"][0] == "view" and not j["opts"] and 64 <= len(j["data"]) < 200000][: (400 if deep else 60)]
     vlines = ["%s %s - %s" % ({"rdh": "rdh", "its-readout-frames": "frames", "its-readout-frames-data": "data"}[j["mode"][1]], j["src"], j["data"].hex().upper()) for j, _r in vj]
     nview = 0
     for (j, (rc, se, dt, args)), lm in zip(vj, core.run_lines(core.FPMODEL, "view", vlines, shards=core.NCPU) if vlines else []):
